@@ -203,6 +203,9 @@ def run_e2e(ctx):
                 prop[kw] = ex_schema(c[k])
         if mult:
             prop["multipleOf"] = mult
+        fmtk = [None, "int32", None, "int64", "uint32", None, "int8", "int16"][i % 8]      # a width hint is an annotation: the admitted integers are the same
+        if fmtk:
+            prop["format"] = fmtk
         schema = {"type": "object", "properties": {"x": prop}}
         if pos.startswith("definition"):
             schema = {"type": "object", "$defs": {"N": prop}, "properties": {"x": {"$ref": "#/$defs/N"}}}
@@ -219,6 +222,8 @@ def run_e2e(ctx):
         if ctx.tier == "quick":
             vals = [v for v in vals if (lo is not None and abs(v - lo) <= 1) or (hi is not None and abs(v - hi) <= 1)] + \
                    [v for v in vals if v in (-129, -128, 127, 128, 255, 256, 0, -1)]
+            if fmtk:
+                vals += [v for v in (-2 ** 31 - 1, -2 ** 31, 2 ** 31 - 1, 2 ** 31, 2 ** 32, -32769, 32768, 65536) if (lo is None or v >= lo - 1) and (hi is None or v <= hi + 1)]
             vals = sorted(set(vals))
         for flag in (False, True):
             cid = "c%d%s" % (i, "on" if flag else "off")
